@@ -78,6 +78,7 @@ type vtimer struct {
 }
 
 var active *X
+var building *X
 var progress int64
 
 // Free reports free-running mode (no scheduler; real goroutines; used for the -race pass).
@@ -106,6 +107,12 @@ func (x *X) Go(name string, fn func()) {
 func Go(fn func()) {
 	x := active
 	if x == nil {
+		if building != nil && !Free() {
+			// spawned by code under test while the harness body sets an execution
+			// up (before x.Run): it becomes a thread of that execution
+			building.Go(fmt.Sprintf("g%d", len(building.threads)), fn)
+			return
+		}
 		go fn()
 		return
 	}
@@ -187,6 +194,16 @@ var pendingLabel string
 func BlockUntil(label string, cond func() bool) {
 	x := active
 	if x == nil || x.inSched {
+		if Free() {
+			// free-running pass: real goroutines, wait for real
+			for i := 0; !cond(); i++ {
+				runtime.Gosched()
+				if i > 1000 {
+					time.Sleep(50 * time.Microsecond)
+				}
+			}
+			return
+		}
 		if !cond() {
 			panic("VERIF-INFRA: blocking operation outside a controlled execution: " + label)
 		}
@@ -389,6 +406,10 @@ func isClosed(ch interface{}) bool {
 }
 
 func Close[T any](ch chan T) {
+	if active == nil {
+		close(ch)
+		return
+	}
 	PointL("close")
 	if x := active; x != nil {
 		if x.closed == nil {
@@ -511,6 +532,8 @@ func runOne(body func(x *X), prefix, ns []int, horizon int) *X {
 				x.Panics = append(x.Panics, fmt.Sprintf("body: %v\n%s", r, trimStack(debug.Stack())))
 			}
 		}()
+		building = x
+		defer func() { building = nil }()
 		body(x)
 	}()
 	return x
